@@ -289,17 +289,26 @@ def run(rep, for_c07=False):
         for role in ("client", "server"):
             # full alphabet with queue bound 2 is model-checked; the graph that is toured uses the tier's bound
             model_check(rep, role, ALL_KINDS, [1], 2)
+            if for_c07:
+                # two graphs: every identifier pair with a short receive queue (toured completely), and two pairs with the deeper queue
+                # and a send-queue backlog (quick: capped number of tour steps, coverage is reported)
+                kinds = ["CER", "DWR", "DPR", "REQ", "CEA"]
+                for tag, ids, maxq, maxs, cap in (("ids", [1, 2, 3, 4], 1 if quick else 2, 0, None), ("backlog", [1, 2], 2, 2, 2500 if quick else None)):
+                    dot = os.path.join(wd, f"psm_{role}_{tag}.dot")
+                    res, _ = tlc.run("Psm", cfg(role, kinds, ids, maxq, props=True, valid_only=True, maxs=maxs), wd=wd, workers=8,
+                                     args=["-dump", "dot,actionlabels", dot], timeout=2400)
+                    tlc.must_ok(res, f"Psm dump {role} {tag}")
+                    rep.tlc(f"Psm dump {role} {tag} ids={ids} MaxQ={maxq} MaxS={maxs}", res)
+                    jobs.append((dot, role, cap))
+                continue
             dot = os.path.join(wd, f"psm_{role}.dot")
             kinds = ALL_KINDS
             maxq = 1 if quick else 2
-            if for_c07:
-                kinds, maxq = ["CER", "DWR", "DPR", "REQ", "CEA"], 2
-            res, _ = tlc.run("Psm", cfg(role, kinds, [1, 2, 3, 4] if for_c07 else [1], maxq, props=for_c07, valid_only=for_c07, maxs=2), wd=wd, workers=8,
+            res, _ = tlc.run("Psm", cfg(role, kinds, [1], maxq, props=False, maxs=2), wd=wd, workers=8,
                              args=["-dump", "dot,actionlabels", dot], timeout=2400)
             tlc.must_ok(res, f"Psm dump {role}")
             rep.tlc(f"Psm dump {role}", res)
-            # quick tier of C07: a bounded number of tour steps (coverage is reported); thorough: the whole graph
-            jobs.append((dot, role, 2500 if (for_c07 and quick) else 60000 if for_c07 else None))      # C07's graph (4 identifier values) is toured up to a cap
+            jobs.append((dot, role, None))
         if not for_c07:
             jobs.append(pair_stage(rep, wd, quick))
         run_tours(rep, jobs)
